@@ -80,6 +80,9 @@ def key_of(v):
         if not cls.startswith('other:'): return 'han:' + cls
     return '%s:%s:%s:%s:%s' % (v['fmt'], v['pipeline'], v['kind'], v['shape'].split('/')[0], c01.classify(v) if v['fmt'] == 'han' else v['pattern'].split(',')[0])
 
+ONE_FOR = ('atom/Word', 'set/SetExtension', 'set/Conjunction', 'vec/Product', 'image/ImageExtension@1', 'image/ImageIntension@2', 'unary/', 'bin/Inheritance', 'bin/DifferenceExtension', 'bin/EquivalenceConcurrent',
+           'nest/image-in-prod', 'nest/stmt-stmt', 'sent/Judgement/Fixed_-1/2', 'sent/Goal/Present/1', 'sent/Question/Eternal/0', 'task/3/Judgement', 'task/0/Quest', 'task/1/Question')
+
 def main(tier, seed):
     from framework import Runner, Query
     R = Runner('C09', tier, seed); R.setup()
@@ -87,11 +90,13 @@ def main(tier, seed):
     quick = tier == 'quick'
     c01.load_keywords(R)
     R.assumptions += ['tokens = atoms (prefix+name), brackets, separators, connecters, copulas, punctuation, stamp brackets / kind marker / number, truth and budget brackets, numbers and separators; no space is inserted inside an atom',
-                      'spacing patterns: none, 1 or 2 spaces at every boundary; thorough adds k in {1,3} spaces at each single boundary; lexical pipeline also tab/newline/U+3000 at every boundary',
+                      'spacing patterns: none, 1 or 2 spaces at every boundary; thorough adds k in {1,3} spaces at each single boundary for one shape of every syntactic class; lexical pipeline also tab/newline/U+3000 at every boundary',
                       'names: 1 symbolic well-formed char each (as C01)']
     shapes = c01.shape_list(tier)
+    gen_ = [x for x in shapes if x[0].startswith('gen/')]
+    shapes = [x for x in shapes if not x[0].startswith('gen/')] + gen_[:(6 if quick else 30)]          # generated nested shapes: a bounded share (they have many tokens)
     if quick:
-        shapes = [x for x in shapes if x[0].startswith(('atom/', 'set/SetExtension', 'set/Conjunction', 'vec/', 'image/ImageExtension@1', 'image/ImageIntension@2', 'unary/', 'bin/', 'nest/')) and not x[0].endswith('SetExtension1')] \
+        shapes = [x for x in shapes if x[0].startswith(('gen/', 'atom/', 'set/SetExtension', 'set/Conjunction', 'vec/', 'image/ImageExtension@1', 'image/ImageIntension@2', 'unary/', 'bin/', 'nest/')) and not x[0].endswith('SetExtension1')] \
                  + [x for x in shapes if x[0].startswith('sent/')][::8] + [x for x in shapes if x[0].startswith('task/')][::5]
     for fmt in FORMATS:
         plist = []
@@ -100,7 +105,7 @@ def main(tier, seed):
                 pats = ['none', ('all', 1), ('all', 2)] if (not quick or pipeline == 'enum') else ['none', ('all', 1)]
                 for p in pats:
                     plist.append(dict(fmt=fmt, name=nm, spec=sp, pattern=p, pipeline=pipeline))
-                if not quick:
+                if not quick and nm.startswith(ONE_FOR):          # single-boundary patterns: for one shape of every syntactic class
                     ntok = 24
                     for i in range(1, ntok):
                         for k in (1, 3): plist.append(dict(fmt=fmt, name=nm, spec=sp, pattern=('one', i, k), pipeline=pipeline))
